@@ -148,6 +148,8 @@ class MaxPlus(Semiring):
         return MaxPlus(self.score + other.score)
 
     def metric(self, other):
+        if self.score == other.score:
+            return 0.0  # also for -inf vs -inf, where the difference is nan
         return abs(self.score - other.score)
 
 
@@ -297,6 +299,8 @@ Real.one = Real(1)
 
 class Log(Semiring):
     def metric(self, other):
+        if self.score == other.score:
+            return 0.0  # also for -inf vs -inf, where the difference is nan
         return abs(self.score - other.score)
 
     def star(self):
